@@ -329,11 +329,14 @@ func CheckPurity(run *report.Run, o GenOpts, n, maxLen int) error {
 			led := Install(h.Cfg.Provider)
 			res := make([]*Result, len(h.Reqs)*3)
 			var wg sync.WaitGroup
+			// a rendezvous at the first container filter makes the requests overlap for certain: each has
+			// built its chain, none has walked past the first filter
+			gate := NewGate(gatedCount(h, len(res)))
 			for k := range res {
 				wg.Add(1)
 				go func(k int) {
 					defer wg.Done()
-					res[k] = ServeConcurrent(cont, h.Cfg, h.Reqs[k%len(h.Reqs)], led)
+					res[k] = ServeGated(cont, h.Cfg, h.Reqs[k%len(h.Reqs)], led, gate)
 				}(k)
 			}
 			wg.Wait()
@@ -350,6 +353,66 @@ func CheckPurity(run *report.Run, o GenOpts, n, maxLen int) error {
 			}
 			if led.Outstanding() != 0 {
 				report1(h, 0, "C19/C13: compressors still outstanding after a concurrent batch", fmt.Sprint(led.Outstanding()), "0")
+			}
+		}
+	}
+	return nil
+}
+
+// gatedCount: how many of the k requests of a concurrent batch reach the first container filter
+func gatedCount(h *History, k int) int {
+	n := 0
+	for i := 0; i < k; i++ {
+		switch h.Reqs[i%len(h.Reqs)].Entry {
+		case "muxHandle", "serveHandle":
+		default:
+			n++
+		}
+	}
+	return n
+}
+
+// CheckConcurrent: every request of a history is served 3× concurrently on one container, with a
+// rendezvous at the first container filter; each answer's projection must equal the sequential one.
+func CheckConcurrent(run *report.Run, p PropSpec, o GenOpts, n, maxLen int) error {
+	SmallPayloads = true
+	o.Overlap = true
+	hs, err := Run(run.Seed*7368787+3, n, o, maxLen)
+	SmallPayloads = false
+	if err != nil {
+		return err
+	}
+	bad := 0
+	for _, h := range hs {
+		if h.Cfg.Recover && h.Cfg.HasRS {
+			continue // the custom recover handler gets no request and could not be attributed
+		}
+		cont, err := Build(h.Cfg)
+		if err != nil {
+			return err
+		}
+		led := Install(h.Cfg.Provider)
+		res := make([]*Result, len(h.Reqs)*3)
+		var wg sync.WaitGroup
+		gate := NewGate(gatedCount(h, len(res)))
+		for k := range res {
+			wg.Add(1)
+			go func(k int) {
+				defer wg.Done()
+				res[k] = ServeGated(cont, h.Cfg, h.Reqs[k%len(h.Reqs)], led, gate)
+			}(k)
+		}
+		wg.Wait()
+		for k, r := range res {
+			i := k % len(h.Reqs)
+			blank := h.BlankBody(i)
+			run.Evaluations++
+			run.TracesValidated++
+			run.Count("concurrent-replays")
+			if a, b := p.Proj(h.Real[i], blank), p.Proj(r, blank); a != b && bad < 3 {
+				bad++
+				run.AddViolation(report.Violation{Kind: "counterexample", What: p.ID + ": a request served concurrently with others (all held at the first container filter, then released) is answered differently from the same request served alone",
+					Case: []string{h.Line}, Human: Human(h, i), Real: a, Model: b})
 			}
 		}
 	}
